@@ -188,6 +188,16 @@ def run_case(c):
                 if hit and e not in have:
                     incomplete.append({"rank": r, "type": et.name, "element": e, "row": ilist(row),
                                        "owned_nodes_hit": sorted(hit)})
+    # hypothesis boundary_ok of C20_node_owner_exists: every node of a lower-dimensional element with
+    # an owner is carried by a main-dimension element of the same rank
+    main_nodes_of_rank = {}
+    for gr in groups:
+        if gr["main"]:
+            for row, rk in zip(gr["connect"], gr["rank"]):
+                main_nodes_of_rank.setdefault(rk, set()).update(row)
+    res["boundary_ok"] = all(set(row) <= main_nodes_of_rank.get(rk, set())
+                             for gr in groups if not gr["main"]
+                             for row, rk in zip(gr["connect"], gr["rank"]) if rk >= 0)
     res["row_incomplete"] = incomplete[:20]
     res["row_incomplete_count"] = len(incomplete)
 
